@@ -62,3 +62,20 @@ try:
     register_type(RealFloat, _make_real)
 except Exception:  # noqa: BLE001  (native replay without crosshair, or registered twice)
     pass
+
+
+def sym_ceil(x):
+    """math.ceil for a FINITE value.  For a symbolic IEEE float this is CrossHair's own encoding of
+    __ceil__ (round toward +inf to an integral value); its built-in __ceil__ cannot be used because its
+    finiteness pre-check runs untraced and thereby realises the operand (enumeration of doubles)."""
+    import math
+
+    with NoTracing():
+        try:
+            import z3
+            from crosshair.libimpl.builtinslib import PreciseIeeeSymbolicFloat as P
+        except Exception:  # noqa: BLE001
+            P = None
+        if P is not None and isinstance(x, P):
+            return P(z3.fpRoundToIntegral(z3.RTP(), x.var))
+    return math.ceil(x)
